@@ -209,7 +209,8 @@ def main():
                 sh(["git", "-C", scratch, "clean", "-fdq"])
     finally:
         drop_scratch(scratch)
-    out = os.path.join(HERE, "selftest", "results_%s_%s.json" % (kind, tier))
+    tag = os.environ.get("RESULTS_TAG", "")
+    out = os.path.join(HERE, "selftest", "results_%s_%s%s.json" % (kind, tier, tag))
     prev = []
     if want and os.path.exists(out):
         prev = [e for e in json.load(open(out)) if e.get("id") not in {r["id"] for r in results}]
